@@ -79,6 +79,36 @@ def _count(c, cases):
                     c.count("printf_star_precision")
 
 
+def _named(c, cases, model):
+    """coq/Printf/NamedArgs.v named_args (extracted, printed by the driver) against the generator's independent
+    scan_args: a kind conflict in Coq implies one in Python; otherwise Coq's list is a prefix of Python's (Coq stops at
+    literal widths that do not fit an int, Python does not) and equal when the run ended ok"""
+    kmap = {"i": "i", "l": "l", "q": "q", "s": "s", "w": "s", "p": "p"}
+    for cid, lines in cases:
+        rm = model.get(cid)
+        if not rm:
+            continue
+        fmts = [bytes.fromhex(l.split()[1].replace("-", "")) for l in lines if l.startswith("fmt ")]
+        named = [o.split()[1][2:] for o in rm["oracle"] if o.startswith("named ")]
+        ends = [l for l in rm["lines"] if l.startswith("end ")]
+        if len(named) != len(fmts):
+            continue
+        for i, (f, nm) in enumerate(zip(fmts, named)):
+            conflict = [False]
+            py = "".join(kmap[k] for k in gen.scan_args(f, conflict))
+            c.count("printf_named_compared")
+            if nm == "none":
+                if not conflict[0]:
+                    c.mismatch(cid, lines, "named_args(%r) = None but scan_args sees no kind conflict" % f)
+                continue
+            if conflict[0]:
+                continue
+            coq = nm[1:-1]
+            ok = i < len(ends) and ends[i] == "end ok"
+            if not py.startswith(coq) or (ok and py != coq):
+                c.mismatch(cid, lines, "named_args(%r) = [%s], scan_args = [%s]" % (f, coq, py))
+
+
 def _poptypes(c, cases, model):
     """the model's va_arg classes must be the ones the generator supplied (else the harness would have been
     called with arguments of the wrong type); positional-mixed cases are D33 itself"""
@@ -104,6 +134,7 @@ def _run_batch(c, cases, har, drv, okd):
     model = vlib.run_cases(drv, cases, timeout=900) if okd else {}
     c.compare(cases, impl, model, _key)
     _poptypes(c, cases, model)
+    _named(c, cases, model)
 
 
 def _is_c20(cid):
